@@ -180,7 +180,9 @@ fn query_sweep(state: &mut ServerState, names: &BTreeMap<String, ModuleReference
 }
 
 fn main() {
-  std::panic::set_hook(Box::new(|_| {}));
+  if std::env::var("C11_SHOW_PANIC").is_err() {
+    std::panic::set_hook(Box::new(|_| {}));
+  }
   let mut state = ServerState::new(Heap::new(), false, HashMap::new());
   // every module name ever mentioned in this history (also the removed / renamed-away ones)
   let mut names: BTreeMap<String, ModuleReference> = BTreeMap::new();
